@@ -82,7 +82,7 @@ static std::string path_desc(const IdxPath& p) {
 static vf::Counter c_hist("histories"), c_ops("operations-checked"), c_map_create("op:CreateMap"), c_map_destroy("op:DestroyMap"), c_remove_tail_with_map("op:RemoveMember(tail)-while-map-exists"),
     c_remove_with_map("op:RemoveMember-while-map-exists"), c_erase_full("op:erase-full-or-empty-range"), c_grow0("op:growth-from-capacity-0"), c_move_sub("op:move-assign-from-own-subnode"),
     c_swap_sub("op:Swap-with-own-subnode"), c_copyfrom("op:CopyFrom"), c_dupkeys("histories-with-duplicate-keys(no-map)"), c_lookup("lookups-checked"), c_reserve_below("op:reserve-below-size"),
-    c_clear_reuse("op:Clear-then-reuse"), c_atptr("AtPointer-checked"), c_parsed_init("histories-starting-from-a-parsed-document");
+    c_clear_reuse("op:Clear-then-reuse"), c_atptr("AtPointer-checked"), c_parsed_init("histories-starting-from-a-parsed-document"), c_small_chunk("histories-on-a-small-chunk-pool(64..1024 bytes)");
 
 static JVal small_value(vf::Rng& r, int depth = 0) {
   switch (r.below(depth >= 2 ? 6 : 9)) {
@@ -111,10 +111,22 @@ static JVal small_value(vf::Rng& r, int depth = 0) {
   }
 }
 
+// a pool with a small chunk size (for pooling allocators; nothing for allocators that free): histories on it cross chunk
+// boundaries all the time, so growth in place meets the end of a chunk and older chunks keep unused tails
+template <class A>
+struct SmallPool {
+  static A* make(size_t) { return nullptr; }
+};
+template <class B, class P>
+struct SmallPool<MemoryPoolAllocator<B, P>> {
+  static MemoryPoolAllocator<B, P>* make(size_t chunk) { return chunk ? new MemoryPoolAllocator<B, P>(chunk) : nullptr; }
+};
+
 template <class Doc>
 struct Hist {
   using NodeT = typename Doc::NodeType;
   using Alloc = typename Doc::Allocator;
+  std::unique_ptr<Alloc> small_pool;  // declared before doc: outlives it
   Doc doc;
   JVal model;
   vf::Rng& r;
@@ -123,7 +135,7 @@ struct Hist {
   std::string trace;  // operation log for witnesses
   const char* cfg;
 
-  Hist(vf::Rng& rng, bool dup, const char* c) : r(rng), dup_mode(dup), cfg(c) {}
+  Hist(vf::Rng& rng, bool dup, const char* c, size_t small_chunk = 0) : small_pool(SmallPool<Alloc>::make(small_chunk)), doc(small_pool.get()), r(rng), dup_mode(dup), cfg(c) {}
   Alloc& A() { return doc.GetAllocator(); }
 
   void log(const std::string& s) {
@@ -615,8 +627,10 @@ static void c12_history(vf::Rng& r, const char* cfg) {
   Hist<Doc>::key_serial_ref() = 0;
   bool dup = r.below(4) == 0;
   if (dup) c_dupkeys.add();
-  Hist<Doc> h(r, dup, cfg);
-  // the side document shares the allocator object, so nodes may be deep-copied across freely
+  size_t small_chunk = r.below(3) == 0 ? (size_t)64 << r.below(5) : 0;  // 64..1024-byte chunks for a third of the pool histories
+  Hist<Doc> h(r, dup, cfg, small_chunk);
+  if (h.small_pool) c_small_chunk.add();
+  // the side document has its own allocator; nodes are deep-copied across
   Hist<Doc> side(r, false, cfg);
   {
     JVal sv = small_value(r, 0);
@@ -867,6 +881,123 @@ static void c13_lazy_case(vf::Rng& r) {
   if (got != expect) vf::violation("lazy-merge-on-ledger-differs-from-pool", "ledger: " + vf::printable(got, 200) + " pool: " + vf::printable(expect, 200) + " texts: " + ttext + " <== " + stext);
   if (su::ledger_errors()) vf::violation("ledger-bad-free:lazy-merge", su::ledger().last_error);
   if (su::ledger_live()) vf::violation("ledger-leak:lazy-merge", std::to_string(su::ledger_live()) + " blocks after the lazily merged nodes were destroyed; texts: " + ttext + " <== " + stext);
+  su::ledger_reset();
+}
+
+// lazy parse / lazy merge of INVALID texts on the ledger allocator: truncated anywhere, mutated, the ':' after a key
+// removed, garbage inside a nested object that is only parsed during the merge.  Whatever was built before the fault
+// (decoded key buffers, member blocks) has to be released exactly once.
+static vf::Counter c13_lazy_bad("lazy-parse-or-merge-of-invalid-text(ledger)"), c13_lazy_bad_rej("lazy-invalid:error-reported"), c13_lazy_bad_acc("lazy-invalid:accepted");
+static void c13_lazy_invalid_case(vf::Rng& r) {
+  su::ledger_reset();
+  std::string ttext, stext;
+  {
+    auto gen_obj = [&](int depth, auto&& self) -> std::string {
+      std::string t = "{";
+      size_t n = r.range(1, 5);
+      for (size_t i = 0; i < n; i++) {
+        if (i) t += ",";
+        std::string k;
+        switch (r.below(3)) {
+          case 0: k = "a\\n" + std::to_string(i); break;
+          case 1: k = "q\\u0041\\t" + std::to_string(i); break;
+          default: k = "k" + std::to_string(i); break;
+        }
+        t += "\"" + k + "\":";
+        if (depth < 2 && r.below(3) == 0) t += self(depth + 1, self);
+        else t += r.coin() ? std::to_string(r.below(100)) : "\"v\\n" + std::to_string(i) + "\"";
+      }
+      return t + "}";
+    };
+    auto spoil = [&](std::string t) {
+      switch (r.below(5)) {
+        case 0: t.resize(r.below(t.size() + 1)); break;
+        case 1: t = jm::mutate(t, r); break;
+        case 2: { size_t p = t.find(':', r.below(t.size())); if (p != std::string::npos) t[p] = ' '; break; }
+        case 3: { size_t p = t.find('"', r.below(t.size())); if (p != std::string::npos) t.erase(p, 1); break; }
+        default: { size_t p = t.rfind('}'); if (p != std::string::npos && p > 0) t.insert(r.below(p) + 1, r.coin() ? "}" : "\\"); break; }
+      }
+      return t;
+    };
+    ttext = gen_obj(0, gen_obj);
+    stext = gen_obj(0, gen_obj);
+    int which = (int)r.below(3);
+    if (which != 1) ttext = spoil(ttext);
+    if (which != 0) stext = spoil(stext);
+    c13_lazy_bad.add();
+    vf::eval();
+    std::string w = ttext + " <== " + stext;
+    vf::witness(w);
+    vf::distinct(vf::hash_str(w));
+    su::TrackAlloc alloc;
+    su::TrackNode target;
+    {
+      su::TrackNode source;
+      vf::note("ParseLazy(invalid text, ledger allocator)");
+      ParseResult r1 = internal::ParseLazy(target, StringView(ttext.data(), ttext.size()), alloc);
+      ParseResult r2 = internal::ParseLazy(source, StringView(stext.data(), stext.size()), alloc);
+      bool bad = r1.Error() || r2.Error();
+      if (!bad) {
+        vf::note("UpdateNodeLazy(texts with faults below the top level)");
+        SonicError e = internal::UpdateNodeLazy(target, source, alloc);
+        bad = e != kErrorNone;
+        if (!bad && r.coin()) {
+          WriteBuffer wb;
+          (void)target.Serialize(wb);
+        }
+      }
+      if (bad) c13_lazy_bad_rej.add(); else c13_lazy_bad_acc.add();
+    }
+    if (su::ledger_errors()) vf::violation("ledger-bad-free:lazy-invalid-text", su::ledger().last_error + " texts: " + vf::printable(w, 300));
+  }
+  if (su::ledger_errors()) vf::violation("ledger-bad-free:lazy-invalid-text", su::ledger().last_error);
+  if (su::ledger_live()) vf::violation("ledger-leak:lazy-invalid-text", std::to_string(su::ledger_live()) + " blocks after lazily parsed nodes were destroyed; texts: " + vf::printable(ttext + " <== " + stext, 300));
+  su::ledger_reset();
+}
+
+// a pooling allocator on top of the ledger allocator: documents are parsed on handles of one pool while handles are
+// copied, moved, copy-assigned and move-assigned (also between two handles of the same pool) and destroyed in any order.
+// When the last handle is gone every chunk and the shared header must have gone back to the ledger, exactly once.
+static vf::Counter c13_pool("pool-over-ledger-histories"), c13_pool_ops("pool-over-ledger:handle-operations"), c13_pool_same("pool-over-ledger:move-assign-between-handles-of-one-pool");
+static void c13_pool_handles_case(vf::Rng& r) {
+  using LPool = MemoryPoolAllocator<su::TrackAlloc>;
+  using LDoc = GenericDocument<DNode<LPool>>;
+  su::ledger_reset();
+  std::string trace;
+  {
+    su::TrackAlloc base;
+    std::vector<std::unique_ptr<LPool>> hs;
+    hs.emplace_back(new LPool((size_t)256 << r.below(6), &base));
+    c13_pool.add();
+    vf::eval();
+    size_t steps = r.range(3, 14);
+    for (size_t k = 0; k < steps; k++) {
+      c13_pool_ops.add();
+      size_t a = r.below(hs.size()), b = r.below(hs.size());
+      switch (r.below(7)) {
+        case 0: trace += "copy;"; hs.emplace_back(new LPool(*hs[a])); break;
+        case 1: trace += "move-construct;"; { std::unique_ptr<LPool> m(new LPool(std::move(*hs[a]))); hs[a] = std::move(m); } break;
+        case 2: if (a != b) { trace += "copy-assign;"; *hs[a] = *hs[b]; } break;
+        case 3: if (a != b) { trace += "move-assign(same pool);"; c13_pool_same.add(); *hs[a] = std::move(*hs[b]); hs.erase(hs.begin() + b); } break;
+        case 4: if (hs.size() > 1) { trace += "destroy;"; hs.erase(hs.begin() + a); } break;
+        case 5: trace += "self-assign;"; *hs[a] = *hs[a]; break;
+        default: {
+          trace += "parse;";
+          jm::GenOpts go;
+          go.max_depth = 3;
+          JVal v = jm::gen_document(r, go);
+          std::string text = jm::render_compact(v);
+          LDoc d(hs[a].get());
+          d.Parse(text.data(), text.size());
+          if (!d.HasParseError() && r.coin()) (void)d.Dump();
+        }
+      }
+      vf::witness(trace);
+    }
+    vf::distinct(vf::hash_str(trace) ^ r.s);
+  }
+  if (su::ledger_errors()) vf::violation("ledger-bad-free:pool-handles", su::ledger().last_error + " history: " + trace);
+  if (su::ledger_live()) vf::violation("ledger-leak:pool-not-returned-after-last-handle", std::to_string(su::ledger_live()) + " blocks still allocated; history: " + trace);
   su::ledger_reset();
 }
 
@@ -1193,6 +1324,8 @@ int main(int argc, char** argv) {
   } else if (g_prop == "C13") {
     S.push_back({"histories_ledger", 20000, 600000, [trim_pool](uint64_t, vf::Rng& r) { c13_history(r); trim_pool(); }});
     S.push_back({"lazy_merge_ledger", 20000, 600000, [](uint64_t, vf::Rng& r) { c13_lazy_case(r); }});
+    S.push_back({"lazy_invalid_text_ledger", 20000, 600000, [](uint64_t, vf::Rng& r) { c13_lazy_invalid_case(r); }});
+    S.push_back({"pool_handles_over_ledger", 10000, 300000, [](uint64_t, vf::Rng& r) { c13_pool_handles_case(r); }});
   } else {
     S.push_back({"pairs_and_triples", 60000, 3000000, [trim_pool](uint64_t, vf::Rng& r) { c18_case(r); trim_pool(); }});
     S.push_back({"long_shared_prefix_keys", 8000, 400000, [trim_pool](uint64_t, vf::Rng& r) { c18_longkey_case(r); trim_pool(); }});
